@@ -4,7 +4,7 @@
 From Coq Require Import List Arith Bool ZArith.
 From Gen Require Import Bounds.
 From Coq Require Import Permutation.
-From C20 Require Import Model Proofs ProofsPerm AcceptLoop.
+From C20 Require Import Model Proofs ProofsPerm AcceptLoop SortPreserving.
 Import ListNotations.
 
 (* (i) semanal_main.process_top_levels: for every oracle the `while worklist:` header is evaluated at most
@@ -170,3 +170,14 @@ Theorem accept_loop_contract_necessary : exists s n,
   accept_loop unit a_partials_flip al_fuel tt 0 0 = Some ((RaisedRuntimeError, s), n) /\ n = ACCEPT_LOOP_CAP - 1.
 Proof. exact al_raise_reachable. Qed.
 Print Assumptions accept_loop_contract_necessary.
+
+(* (vi) server/update.py sort_messages_preserving_file_order -- the stage every daemon answer passes through: for ANY list of
+   message lines and ANY set of previously seen file names no subscription messages[k] is out of range and both loops end *)
+Theorem daemon_message_order_total : forall (order : list nat) (l : list Line), exists r, sort_preserving order l = Ok r.
+Proof. exact sort_preserving_total. Qed.
+Print Assumptions daemon_message_order_total.
+
+Example daemon_message_order_example :
+  sort_preserving [2; 1] [mkM 0 1 true false; mkM 1 7 false false; mkM 2 2 true false; mkM 3 9 true false; mkM 4 5 false true]
+  = Ok [mkM 2 2 true false; mkM 0 1 true false; mkM 1 7 false false; mkM 3 9 true false; mkM 4 5 false true].
+Proof. exact sort_preserving_example. Qed.
